@@ -110,6 +110,10 @@ OPS = {
         op("closure-marks-swapped-ends", "fire", [(S, "        a=latom.index, a_stereo=lstereo, a_pos=lpos,\n        b=ratom.index, b_stereo=rstereo,", "        a=latom.index, a_stereo=lstereo, a_pos=lpos,\n        b=ratom.index, b_stereo=lstereo,")], ["S6"]),
     ],
     "C05": [
+        op("prune-rule-free-electrons-not-one", "fire", [(M, "                return not ((free_electrons >= 0) and (free_electrons % 2 != 0))", "                return free_electrons != 1")], ["K6"]),
+        op("prune-ignores-explicit-hydrogens", "fire", [(M, "            used_electrons += atom.h_count\n", "            used_electrons += 0\n")], ["K6"]),
+        op("prune-uses-first-valence", "fire", [(M, "            valence = valences[-1] - atom.charge", "            valence = valences[0] - atom.charge")], ["K6"]),
+        op("prune-membership-spelled-in", "silent", [(M, "            return any(used_electrons == v for v in valences)", "            return used_electrons in valences")]),
         op("missing-matching-not-checked", "fire", [(M, "        if matching is None:\n            return False\n", "")], ["K1"]),
         op("success-without-matching", "fire", [(M, "        if matching is None:\n            return False\n", "        if matching is None:\n            return True\n")], ["K1"]),
         op("encoder-ignores-kekulize-result", "fire", [(E, "    if not mol.kekulize():\n        err_msg = \"kekulization failed\\n\\tSMILES: {}\".format(smiles)\n        raise EncoderError(err_msg)\n", "    mol.kekulize()\n")], ["K1"]),
